@@ -249,6 +249,12 @@ class CombinedDataHandler:
 
         non_modeled_units_list = [units_blocklisted, units_with_zero_baseline, units_with_strange_turnout_factor]
 
+        # units that are already outside the model must not take part in the outlier models either, otherwise
+        # their results decide (through the residual spread) whether *other* units are flagged
+        reporting_units = reporting_units[
+            ~reporting_units.geographic_unit_fips.isin(pd.concat(non_modeled_units_list).geographic_unit_fips)
+        ].reset_index(drop=True)
+
         if fit_turnout_outlier_model and reporting_units.shape[0] > self.n_minimum_for_outlier_detection_model:
             units_with_strange_turnout_factor_modeled = self._fit_outlier_detection_model(
                 reporting_units, "turnout_factor", outlier_z_threshold
